@@ -11,3 +11,4 @@ import Cstl.HashFn.Props
 import Cstl.Link.Props
 import Cstl.Sort.Props
 import Cstl.Tree.Props
+import Cstl.Hash.Props
